@@ -47,6 +47,15 @@ func main() {
 			} else {
 				scs = consnet.Product(cfgs, full, d)
 			}
+			// crash of each honest node before every (quick: every 3rd) durable write in a fork attempt that only
+			// the crashed node's restored lock prevents - with the harness repair of the reloaded proposer and without
+			forkAttempt := []consnet.Rule{{Kind: "hold", Node: 3, Msg: "prevote", Round: 0}, {Kind: "byz-split", Msg: "precommit", Round: 0, Set: []int{2}, Alt: "nil"}, {Kind: "byz-fresh", Round: 1}}
+			crashBases := []consnet.Scenario{
+				{Powers: []int64{1, 1, 1, 1}, Byz: 1, Heights: 2, Rules: forkAttempt},
+				{Powers: []int64{1, 1, 1, 1}, Byz: 1, Heights: 2, Rules: forkAttempt, NoProposerFix: true},
+			}
+			crashes, crashInfo := consnet.CrashScenarios(crashBases, run.WorkDir()+"/crashref", run.Pick(3, 1), []int{0, 1})
+			scs = append(scs, crashes...)
 			// delay-bounded scheduling: every single (thorough: also pairs of) non-default choice at
 			// every scheduling decision of three base executions
 			devBases := []consnet.Scenario{
@@ -59,7 +68,7 @@ func main() {
 			}
 			devs, devInfo := consnet.DeviationScenarios(devBases, run.Pick(1, 2), run.WorkDir()+"/devref", 20000)
 			scs = append(scs, devs...)
-			bounds := map[string]interface{}{"deviation_bound": d, "validators": 4, "heights": 2, "rounds_named_by_rules": []int{0, 1}, "delay_bounded_schedules": len(devs), "delay_bounded_info": devInfo}
+			bounds := map[string]interface{}{"deviation_bound": d, "validators": 4, "heights": 2, "rounds_named_by_rules": []int{0, 1}, "delay_bounded_schedules": len(devs), "delay_bounded_info": devInfo, "crash_scenarios": len(crashes), "crash_info": crashInfo}
 			return scs, "delay-bounded scheduling (every non-default input choice - other pending delivery, early/deferred delivery, any armed timeout, skipped turn - at every scheduling decision of the base executions; thorough: pairs) plus every compatible subset of <= d deviation rules (quick: all single rules naming rounds 0-1 and all pairs of round-0 rules; thorough: all subsets of size <= 3 of the full menu, budget-capped) (hold/mute/early-timeout/Byzantine silent, equivocating proposal, fresh proposal, split votes, future-round votes) over 4 real ConsensusState machines (one Byzantine, honest by default), each execution run to 2 committed heights under the fair default schedule; distinct = distinct (committed block per node and height, max round) outcomes",
 				bounds
 		},
@@ -83,10 +92,13 @@ func soloDriver(run *core.Run, cov core.Coverage) {
 	rounds := run.Pick(2, 3)
 	deadline := time.Now().Add(time.Duration(run.Pick(40, 420)) * time.Second)
 	type st struct {
-		steps []consnet.SoloStep
-		lock  string
+		steps  []consnet.SoloStep
+		lock   string
+		powers []int64
 	}
-	frontier := []st{{}}
+	// round 0 is played on three power vectors whose totals cover every residue mod 3
+	// (quorum arithmetic at the exact-2/3 boundary); deeper rounds on equal powers
+	frontier := []st{{powers: []int64{1, 1, 1, 1}}, {powers: []int64{1, 1, 1, 2}}, {powers: []int64{1, 1, 2, 2}}}
 	seen := map[string]bool{}
 	runs, transitions, viol := 0, 0, 0
 	complete := 0
@@ -96,9 +108,13 @@ func soloDriver(run *core.Run, cov core.Coverage) {
 			if r > 0 && f.lock == "" && (run.Quick() || r > 1) {
 				continue // deeper rounds: only states that hold a lock are expanded (the discipline under test)
 			}
-			for _, s := range consnet.SoloRoundScripts(int64(r), r > 0) {
+			scripts := consnet.SoloRoundScripts(int64(r), r > 0)
+			if !run.Quick() {
+				scripts = consnet.SoloRoundScriptsLate(int64(r), r > 0)
+			}
+			for _, s := range scripts {
 				steps := append(append([]consnet.SoloStep{}, f.steps...), s...)
-				scs = append(scs, &consnet.Scenario{ID: len(scs), Powers: []int64{1, 1, 1, 1}, Byz: -1, Heights: 1, Mode: "nohash", Solo: &consnet.SoloSpec{Node: 2, Steps: steps}})
+				scs = append(scs, &consnet.Scenario{ID: len(scs), Powers: f.powers, Byz: -1, Heights: 1, Mode: "nohash", Solo: &consnet.SoloSpec{Node: 2, Steps: steps}})
 			}
 		}
 		var next []st
@@ -131,7 +147,7 @@ func soloDriver(run *core.Run, cov core.Coverage) {
 						run.Report(v.Sig, o.Sc, v.Detail+" | "+o.Sc.String())
 					}
 				}
-				k := consnet.SoloKey(o.Res)
+				k := fmt.Sprint(o.Sc.Powers) + consnet.SoloKey(o.Res)
 				if !seen[k] {
 					seen[k] = true
 					if len(o.Res.Commits) == 0 {
@@ -139,7 +155,9 @@ func soloDriver(run *core.Run, cov core.Coverage) {
 						if strings.HasSuffix(lock, "/") {
 							lock = ""
 						}
-						next = append(next, st{o.Sc.Solo.Steps, lock})
+						if o.Sc.Powers[3] == 1 && o.Sc.Powers[2] == 1 {
+							next = append(next, st{o.Sc.Solo.Steps, lock, o.Sc.Powers})
+						}
 					}
 				}
 			})
